@@ -5,10 +5,8 @@ package main
 import (
 	"context"
 	"encoding/json"
-	"errors"
 	"fmt"
 	"regexp"
-	"strings"
 	"sync"
 
 	"github.com/anyproto/any-sync/app"
@@ -16,8 +14,11 @@ import (
 	"verifharness/vlib"
 )
 
-var svcRe = regexp.MustCompile(`service '([^']*)'`)
-var compRe = regexp.MustCompile(`^Component '([^']*)' close error`)
+// The failing component is identified by a token inside the error IT returned (Start wraps it, Close joins
+// the texts), not by the container's own wording around it, so rewording the container's messages does not
+// disturb the comparison.
+var failRe = regexp.MustCompile(`(initfail|runfail)#c(\d+)#`)
+var closeFailRe = regexp.MustCompile(`closefail#c(\d+)#`)
 
 type compSpec struct {
 	Name       int  `json:"name"`
@@ -66,7 +67,7 @@ func (p *plain) Init(a *app.App) error {
 		p.onInit()
 	}
 	if p.spec.InitFails {
-		return errors.New("init failed")
+		return fmt.Errorf("initfail#c%d#", p.spec.Name)
 	}
 	return nil
 }
@@ -80,14 +81,14 @@ func (r *runnable) Run(ctx context.Context) error {
 		r.onRun()
 	}
 	if r.spec.RunFails {
-		return errors.New("run failed")
+		return fmt.Errorf("runfail#c%d#", r.spec.Name)
 	}
 	return nil
 }
 func (r *runnable) Close(ctx context.Context) error {
 	r.log.add("EClose", r.idx)
 	if r.spec.CloseFails {
-		return errors.New("close failed")
+		return fmt.Errorf("closefail#c%d#", r.spec.Name)
 	}
 	return nil
 }
@@ -185,23 +186,37 @@ func runStart(cs []compSpec) ([]event, string, string) {
 	res := "StartOk"
 	cls := "ok"
 	if err != nil {
-		msg := err.Error()
-		// "can't init service 'cN': ..." / "can't run service 'cN': ..."
-		idx := -1
-		if m := svcRe.FindStringSubmatch(msg); m != nil {
-			idx = nameIdx(cs, m[1])
-		}
-		switch {
-		case strings.HasPrefix(msg, "can't init service") && idx >= 0:
-			res, cls = vlib.App("ErrInit", vlib.Nat(idx)), "init_err"
-		case strings.HasPrefix(msg, "can't run service") && idx >= 0:
-			res, cls = vlib.App("ErrRun", vlib.Nat(idx)), "run_err"
-		default:
-			// unknown error shape: report as an init error on an impossible index so that it mismatches
-			res, cls = vlib.App("ErrInit", vlib.Nat(9999)), "unknown_err"
-		}
+		res, cls = startErrTerm(cs, err)
 	}
 	return l.ev, res, cls
+}
+
+// startErrTerm: which component's error does Start report, and from which call
+func startErrTerm(cs []compSpec, err error) (string, string) {
+	if m := failRe.FindStringSubmatch(err.Error()); m != nil {
+		if idx := nameIdx(cs, "c"+m[2]); idx >= 0 {
+			if m[1] == "initfail" {
+				return vlib.App("ErrInit", vlib.Nat(idx)), "init_err"
+			}
+			return vlib.App("ErrRun", vlib.Nat(idx)), "run_err"
+		}
+	}
+	// an error that carries no component's error: report an impossible index so that it mismatches
+	return vlib.App("ErrInit", vlib.Nat(9999)), "unknown_err"
+}
+
+func closeErrIdx(cs []compSpec, err error) (errs []int) {
+	if err == nil {
+		return nil
+	}
+	ms := closeFailRe.FindAllStringSubmatch(err.Error(), -1)
+	for _, m := range ms {
+		errs = append(errs, nameIdx(cs, "c"+m[1]))
+	}
+	if len(ms) == 0 {
+		errs = append(errs, 9999)
+	}
+	return
 }
 
 func runClose(cs []compSpec) ([]event, []int) {
@@ -211,16 +226,7 @@ func runClose(cs []compSpec) ([]event, []int) {
 		a.Register(mkComp(c, i, l))
 	}
 	err := a.Close(context.Background())
-	var errs []int
-	if err != nil {
-		for _, line := range strings.Split(err.Error(), "\n") {
-			if m := compRe.FindStringSubmatch(line); m != nil {
-				errs = append(errs, nameIdx(cs, m[1]))
-			} else {
-				errs = append(errs, 9999)
-			}
-		}
-	}
+	errs := closeErrIdx(cs, err)
 	return l.ev, errs
 }
 
